@@ -25,6 +25,10 @@ const (
 	oldEventsFileName = "events.jsonl" // Legacy name, kept for backwards compatibility
 )
 
+// maxEventLineBytes is the longest log line (including its trailing newline)
+// that readEvents can read back. Writers must not exceed it.
+const maxEventLineBytes = 10 * 1024 * 1024
+
 func resolveErgoDir(start string) (string, error) {
 	current := start
 	for {
@@ -116,8 +120,6 @@ func readEvents(path string) ([]Event, error) {
 	}
 	defer file.Close()
 
-	const maxEventLineBytes = 10 * 1024 * 1024
-
 	endsWithNewline := false
 	if info, err := file.Stat(); err == nil && info.Size() > 0 {
 		last := make([]byte, 1)
@@ -191,6 +193,20 @@ func formatEventsParseError(path string, lineNo int, line []byte, cause error) e
 	return fmt.Errorf("%s:%d: invalid JSON in events log (run `ergo compact` after fixing): %s (%v)", path, lineNo, snippet, cause)
 }
 
+// encodeEventLine returns the log line for event (JSON plus trailing newline).
+// It refuses lines the reader could never read back.
+func encodeEventLine(event Event) ([]byte, error) {
+	data, err := json.Marshal(event)
+	if err != nil {
+		return nil, err
+	}
+	line := append(data, '\n')
+	if len(line) > maxEventLineBytes {
+		return nil, fmt.Errorf("event too large (%d bytes; max %d)", len(line), maxEventLineBytes)
+	}
+	return line, nil
+}
+
 // hasUnterminatedTail reports whether the file at path is non-empty and does
 // not end in '\n' (e.g. a previous writer died mid-line). A missing file
 // counts as terminated.
@@ -243,12 +259,11 @@ func appendEvents(path string, events []Event) error {
 	// leave only part of a command's events in the log.
 	var buf []byte
 	for _, event := range events {
-		data, err := json.Marshal(event)
+		line, err := encodeEventLine(event)
 		if err != nil {
 			return err
 		}
-		buf = append(buf, data...)
-		buf = append(buf, '\n')
+		buf = append(buf, line...)
 	}
 	verifPoint("append.before")
 	if err := writeAll(file, buf); err != nil {
@@ -259,18 +274,23 @@ func appendEvents(path string, events []Event) error {
 }
 
 func writeEventsFile(path string, events []Event) error {
+	// Encode (and size-check) everything before touching the file.
+	lines := make([][]byte, 0, len(events))
+	for _, event := range events {
+		line, err := encodeEventLine(event)
+		if err != nil {
+			return err
+		}
+		lines = append(lines, line)
+	}
 	file, err := os.OpenFile(path, os.O_CREATE|os.O_WRONLY|os.O_TRUNC, 0644)
 	if err != nil {
 		return err
 	}
 	defer file.Close()
 	writer := bufio.NewWriter(file)
-	for _, event := range events {
-		data, err := json.Marshal(event)
-		if err != nil {
-			return err
-		}
-		if _, err := writer.Write(append(data, '\n')); err != nil {
+	for _, line := range lines {
+		if _, err := writer.Write(line); err != nil {
 			return err
 		}
 	}
